@@ -57,6 +57,7 @@ fn dispatch(line: &str) -> String {
         "ctor" => ctor::line(&toks),
         "serde" => ser::line(&toks),
         "sweep" => samp::sweep(&toks),
+        "ks" => samp::ks(&toks),
         "many" => samp::many(&toks),
         "lat" => samp::lat(&toks),
         "pure" => samp::pure(&toks),
